@@ -10,6 +10,12 @@ NOTE = ("Trusted: Coq 8.16.1 kernel; the hand-written Gallina model (tied to /re
         "No axioms: Print Assumptions of every property theorem is recorded in the evidence.")
 
 CLAIMED = {
+ "C07": ("Theorems (Props/C07.v), for keys whose numbers are integers of any Go integer type / *big.Int / bool, the three string kinds, Tuples, None, Class, Call, Ref: equal() = Python's == ; equal keys feed identical bytes to maphash (any seed, any hash function); a Dict holding a finds it under b iff a == b for every slot order. Keys with float/complex parts: decided by the correspondence run only (partial). Tie: ~6*10^4 ordered pairs of a boundary lattice against the model AND against CPython's own ==, plus black-box lookups in up to 4096 freshly seeded Dicts.",
+         "proof (structural induction over keys, exact integer arithmetic) + lattice differential against model and CPython + seeded black-box lookups", "5 (C07)"),
+ "C08": ("Theorems (Props/C08.v), integer-fragment keys, every slot order: after ANY history the Dict model's entry list equals the reference dictionary's (Set/Del remove every equal entry, Len/Iter), no two stored keys equal, Get = reference Get when at most one stored key equals the query and otherwise the value of some equal entry; the full 'most recent' statement is refuted by a vm_compute witness (known finding nontransitive_multi_match). Tie: exhaustive histories over the 10-key colliding alphabet (length <=3 quick, <=4 thorough) and long random histories against extracted RefDict and Dict model.",
+         "proof (refinement to a reference dictionary by induction over histories) + exhaustive short histories + long random histories", "5 (C08)"),
+ "C17": ("Theorem C17_api (Props/C17.v): for every Dict state, slot order and key the hash rejects, Get/Set/Del panic before reading or writing any entry (also on the empty Dict). Decode half: decided by generated programs (unhashable object at depth 0..3 in Tuple/Call/Ref x DICT/SETITEM/SETITEMS x 4 configs) on implementation and model; the decoder-side theorem is part of C04 (no panic) - an explicit 'returns an error' theorem for the three handlers is not yet stated (partial).",
+         "proof on the Dict model + generated unhashable-key programs and direct API calls with before/after comparison", "5 (C17)"),
  "C04": ("Theorems (Props/C04.v): for every byte string, configuration and decoder state the model of Decode never panics, never exhausts fuel length+1 (each loop iteration consumes a byte), reports every undispatched opcode byte as OpcodeError{byte,index} and PROTO>5 as ErrInvalidPickleVersion. Tie: outcome classes of model and implementation compared on corpus, grammar programs, mutations, opcode soup, length bombs, all 256 bytes x4 configs; direct oracle on the implementation: recover, timeout, TotalAlloc envelope. The memory clause is partial: it is measured on the implementation (envelope 1 KiB/byte + 2 MiB), not proved.",
          "proof over the decoder model (induction on fuel / free-monad structure) + differential correspondence + allocation metering", "5 (C04)"),
  "C10": ("Theorem C10_truncation (Props/C10.v): for every config, state, accepted pickle p and proper prefix q, the model's Decode on q yields io.EOF (q empty) or io.ErrUnexpectedEOF, no value, all of q consumed - by a generic prefix-monotonicity lemma of the reader monad lifted through the instruction loop. Tie and direct oracle: every cut of generated/valid corpus pickles x4 configs on the implementation, classes compared with the model.",
